@@ -240,3 +240,28 @@ pub proof fn lemma_alt_reads_exact<'s>(v: Version, tail: Seq<char>, i: &'s str, 
         lemma_same_key_same_order(kx, key(v), w); lemma_k_flip(kx, w); lemma_k_flip(key(v), w);
     }
 }
+// ... and the prerelease gate of that interval is the gate of the comparator: opt-in exactly on v's tuple, and only if v carries a tag
+pub proof fn lemma_cmp_gate(op: Operation, v: Version, o: Option<BoundSet>)
+    requires op != Operation::Exact, wf_version(v), reads_cmp(op, v, o),
+    ensures o is Some, forall|x: VKey| #![trigger gate(o->Some_0, x)] gate(o->Some_0, x) <==> (x.pre.len() == 0 || (v.pre_release@.len() > 0 && same_tuple(key(v), x))),
+{
+    let xx = choose|x: (Operation, Partial)| #[trigger] primitive_post(x, o) && x.0 == op && partial_is(x.1, full_pspec(v)) && wf_partial(x.1);
+    reveal(cut_cmp);
+    lemma_texts_read_back(v.pre_release@);
+    lemma_idents_are_same(xx.1.pre_release@, v.pre_release@, full_pspec(v).pre);
+    assert(o is Some);
+    let b = o->Some_0;
+    assert(bs_wf(b));
+    assert forall|x: VKey| #![trigger gate(b, x)] gate(b, x) <==> (x.pre.len() == 0 || (v.pre_release@.len() > 0 && same_tuple(key(v), x))) by {
+        match op {
+            Operation::GreaterThan | Operation::GreaterThanEquals => {
+                assert(bound_version(*b.upper) is None);
+                assert(bound_version(*b.lower) matches Some(w) && key(w).pre.len() == v.pre_release@.len() && same_tuple(key(w), key(v)));
+            },
+            _ => {
+                assert(bound_version(*b.lower) is None);
+                assert(bound_version(*b.upper) matches Some(w) && key(w).pre.len() == v.pre_release@.len() && same_tuple(key(w), key(v)));
+            },
+        }
+    }
+}
